@@ -28,6 +28,8 @@ CONFIGS = [
     {'kind': 'file', 'serialized': True, 'protocol': None},
     {'kind': 'file', 'serialized': True, 'protocol': 'json'},
     {'kind': 'sql', 'memory': False},
+    {'kind': 'file', 'serialized': False, 'protocol': None},     # source-text encodings (import-based readers)
+    {'kind': 'dir', 'serialized': False, 'protocol': None},
 ]
 
 
@@ -593,15 +595,18 @@ def judge(case, outs, final):
                 k = json.dumps(r['key'])
                 if r.get('exc') == 'KeyError':
                     if always_present(k, r['call'], r['ret']):
+                        # (single file + only rewriting openers: the key can only be gone because an opener's
+                        # read-modify-write put an older dictionary back - the recorded lost-write finding)
                         bad('present-key-reported-absent', 'lookup of %s raised KeyError although it was stored before the '
-                            'lookup began and is never deleted' % k, overwrite_only_mech(k, r['call'], r['ret']))
+                            'lookup began and is never deleted' % k,
+                            overwrite_only_mech(k, r['call'], r['ret']) + (['file-open-rewrites-archive'] if rewriting_opener else []))
                 elif json.dumps(r['res']) not in allowed_vals.get(k, set()):
                     bad('value-never-stored', 'lookup of %s returned %s, never stored for that key' % (k, json.dumps(r['res'])[:80]))
             elif o == 'in':
                 k = json.dumps(r['key'])
                 if r['res'] is False and always_present(k, r['call'], r['ret']):
                     bad('present-key-reported-absent', '%s in archive was False although it was stored before and is never deleted' % k,
-                        overwrite_only_mech(k, r['call'], r['ret']))
+                        overwrite_only_mech(k, r['call'], r['ret']) + (['file-open-rewrites-archive'] if rewriting_opener else []))
             elif o in ('keys',):
                 for k in r['res']:
                     if k not in ever_keys:
